@@ -16,7 +16,8 @@ type binaryStreamPProfProtoDec struct {
 }
 
 func ns(timestamp uint64) uint64 {
-	for timestamp < 1000000000000000000 {
+	// 0 stays 0 under *= 10: without the guard the loop never ends
+	for timestamp != 0 && timestamp < 1000000000000000000 {
 		timestamp *= 10
 	}
 	return timestamp
